@@ -49,7 +49,7 @@ Definition judge (c : case) : list verdict :=
     clause "C11_completed_means_all_updated_and_ready(restoring attempt)"
       (bi_partitioned i || done_means_ready i true (bi_restored i) (bi_statuses i) os);
     (* F6: a retry on an already restored Deployment reports done without looking at the pods *)
-    clause_known "C11_completed_means_all_updated_and_ready_on_every_attempt" "C11:F6" true
+    clause_known "C11_completed_means_all_updated_and_ready_on_every_attempt" "C11:F6" (corresponds c)
       (bi_partitioned i || done_means_ready i false (bi_restored i) (bi_statuses i) os) ].
 
 Definition tag (c : case) : string :=
